@@ -77,3 +77,15 @@ Qed.
 Lemma fold_left_ext_in {A B} (f g : A -> B -> A) l a :
   (forall a x, In x l -> f a x = g a x) -> fold_left f l a = fold_left g l a.
 Proof. revert a; induction l; simpl; intros; auto. rewrite H by auto. apply IHl; auto. Qed.
+
+Lemma NoDup_app_snoc {A} (l : list A) x : NoDup l -> ~ In x l -> NoDup (l ++ [x]).
+Proof.
+  induction l as [|a l IH]; simpl; intros Hnd Hni.
+  - constructor; [intros []|constructor].
+  - inversion Hnd; subst. constructor.
+    + rewrite in_app_iff; simpl. intros [|[|[]]]; auto.
+    + apply IH; auto.
+Qed.
+
+(** split conjunctions only (never records) *)
+Ltac splits := repeat match goal with |- _ /\ _ => split end.
